@@ -202,11 +202,9 @@ def _aniso_config(rng, allow_origin_node):
 
 
 def _mol_config(rng):
-    # molecular grids: radial rules WITHOUT a node at the trimmed infinity (Clenshaw-Curtis / Simpson / trapezoid through
-    # BeckeRTransform put their last node at r = 1e16, where Becke weights are beyond floating-point resolution of the
-    # geometry - inf or NaN for some geometries; recorded by C06 as outside its decided domain |r| <= 1e12)
-    kind = "gl-becke"
-    n = _pick(rng, [100, 120])
+    # (the node these rules put at the trimmed infinity r = 1e16 is cut off in _molgrid)
+    kind = _pick(rng, ["cc-becke", "simpson-becke"])
+    n = _pick(rng, [100, 120]) if kind == "cc-becke" else _pick(rng, [201, 251])
     return {"kind": kind, "n": n, "rmin": _pick(rng, [1e-5, 1e-6]), "R": _pick(rng, [1.0, 1.5])}, {"include_origin": False, "rlp": 1e6}
 
 
@@ -451,6 +449,12 @@ def _molgrid(rgrid, degree, atnums, coords):
     from grid.becke import BeckeWeights
     from grid.molgrid import MolGrid
 
+    # Clenshaw-Curtis / Simpson / trapezoid rules through BeckeRTransform put their last node at the trimmed infinity
+    # r = 1e16, where Becke weights are beyond the floating-point resolution of the geometry (inf / NaN for some
+    # geometries: recorded by C06 as outside its decided domain |r| <= 1e12, and the cause of a false alarm of this check
+    # at seed 4). That node carries no density and is removed from the ODE mesh by remove_large_pts anyway: cut it off.
+    if float(rgrid.points[-1]) > 1e12:
+        rgrid = rgrid[:-1]
     ats = [_atomgrid(rgrid, degree, c) for c in coords]
     return MolGrid(np.array(atnums), ats, BeckeWeights(order=3), store=True)
 
@@ -561,33 +565,19 @@ def _run(ctx, family, params):
         cs = rng.uniform(0.3, 2.0, len(atn))
         al = _loguniform(rng, 0.4, 3.0, len(atn))
         subj = _subject("solve_poisson_bvp:molgrid", params["rad"], params["opts"]) + f":{len(atn)}-centre"
-        # the accuracy is relative to the total charge at EVERY charge scale (linearity): weak densities (perturbation /
-        # response densities, coefficients 1e-7 .. 1e-10) and strong ones must be solved as well as O(1) ones
-        lam = [1.0, float(_loguniform(rng, 1e-10, 1e-9)), 1.0, float(_loguniform(rng, 1e2, 1e5))][int(params.get("k", 0)) % 4]
-        rlp = params["opts"].get("rlp")
-        if lam < 1.0 and not (rlp is None or rlp >= 1e6):
-            # with a truncated radial range the collocation solver's random O(1) initial guess dominates a 1e-9 solution
-            # (measured: V[1e-10 rho]/1e-10 deviates 8-40 % from V[rho] for remove_large_pts=10, 7e-6 for 1e6): outside the
-            # decided envelope, recorded as an observation in DESIGN.md 8.2
-            lam = 1.0
+        # the accuracy is relative to the total charge at every decided charge scale (linearity): strong densities
+        # (charges 1e2..1e5) are solved as well as O(1) ones.  WEAK densities (total charge below ~1e-8) are NOT decided:
+        # solve_ode_bvp starts from a random O(1) initial guess and SciPy's collocation tolerance is partly absolute, so
+        # on the unchanged tree V[lam*rho]/lam deviates from V[rho] by 1e-5 .. 40 % for lam = 1e-9 .. 1e-10 depending on
+        # the radial grid (measured; DESIGN.md 8.2 "recorded, not decided") - no clause can separate a defect from that noise.
+        lam = [1.0, 1.0, 1.0, float(_loguniform(rng, 1e2, 1e5))][int(params.get("k", 0)) % 4]
         if lam != 1.0:
-            subj += ":weak-density" if lam < 1 else ":strong-density"
+            subj += ":strong-density"
             ctx.count("bvp-mol:scaled-density")
         rho = lam * ref.gauss_density(mg.points, cs, al, coords)
         pot = _call(ctx, "bvp-accuracy-mol", subj, lambda: solve_poisson_bvp(mg, rho, tf, **_bvp_kwargs(params["opts"])))
         P = _eval_points(rng, coords)
-        if True:  # accuracy relative to the total charge at every decided charge scale (weak scale only inside the envelope above)
-            _compare(ctx, "bvp-accuracy-mol", subj, pot(P) / lam, ref.gauss_potential(P, cs, al, coords), TOL_ACC, float(np.sum(np.abs(cs))), note="err/sum|c|", extra={"alphas": al, "coords": coords, "atnums": atn, "charge_scale": lam})
-        if lam < 1.0:
-            # and the composition rule itself at that scale: the molecular potential equals the sum of the atomic-grid
-            # potentials of w_A * rho, recomputed here from the public pieces (random initial guesses differ: 5e-2)
-            tot = 0.0
-            for i in range(len(atn)):
-                sl = slice(int(mg.indices[i]), int(mg.indices[i + 1]))
-                at = mg.get_atomic_grid(i)
-                pa = _call(ctx, "mol-equals-sum-of-atomic", subj, lambda: solve_poisson_bvp(at, (rho * mg.aim_weights)[sl], tf, **_bvp_kwargs(params["opts"])))
-                tot = tot + pa(P)
-            _compare(ctx, "mol-equals-sum-of-atomic", subj, pot(P) / lam, tot / lam, 5e-2, float(np.sum(np.abs(cs))), note="err/sum|c|", extra={"charge_scale": lam})
+        _compare(ctx, "bvp-accuracy-mol", subj, pot(P) / lam, ref.gauss_potential(P, cs, al, coords), TOL_ACC, float(np.sum(np.abs(cs))), note="err/sum|c|", extra={"alphas": al, "coords": coords, "atnums": atn, "charge_scale": lam})
 
     elif family == "ivp":
         spec = {"kind": "trap-linfinite", "n": params["n"], "rmin": 1e-3, "rmax": 1e3}
@@ -688,7 +678,7 @@ def _run_robust(ctx, family, params):
     atn = [int(z) for z in params["atnums"]]
     mol = params["mol"]
     if mol:
-        spec = {"kind": "gl-becke", "n": 100, "rmin": 1e-5, "R": 1.5}  # no node at the trimmed infinity, see _mol_config
+        spec = {"kind": "cc-becke", "n": 100, "rmin": 1e-5, "R": 1.5}  # node at the trimmed infinity is cut off in _molgrid
         rg, tf, r0, rmax = make_radial(spec)
         coords = _geometry(rng, len(atn))
         grid = _molgrid(rg, params["degree"], atn, coords)
